@@ -406,24 +406,32 @@ func generateSafePrimePair(param *SystemParameters) (*big.Int, *big.Int, error) 
 	// Receive safe prime results in a loop, until we have a suitable pair of safe primes.
 loop: // we need this label to continue the for loop from within the select below
 	for {
+		verifHook("cons.select.before", ints)
 		select { // wait for and then handle an incoming bigint or error, whichever comes first
 
 		case p = <-ints:
+			verifHook("cons.recv", ints, p)
 			pPrimeMod8.Mod(pPrime.Rsh(p, 1), big.NewInt(8))
 			// p is our candidate safe prime, set p' = (p-1)/2. Check that p' mod 8 != 1
 			if pPrimeMod8.Cmp(big.NewInt(1)) == 0 {
+				verifHook("cons.decision", ints, "skip", param, p, nil, safeprimes)
 				continue loop
 			}
 			// If we have earlier found other candidates, see if any pair of them fits all requirements
 			if q = findMatch(safeprimes, param, p, n, pMod8, qMod8); len(safeprimes) == 0 || q == nil {
+				verifHook("cons.decision", ints, "store", param, p, nil, safeprimes)
 				safeprimes = append(safeprimes, p) // include p as it might match with future safe primes
 				continue loop
 			}
+			verifHook("cons.decision", ints, "return", param, p, q, safeprimes)
 			close(stop) // We have enough, stop safeprime.GenerateConcurrent()
+			verifHook("cons.stop.closed", ints)
 			return p, q, nil
 
 		case err = <-errs:
+			verifHook("cons.err", ints, err)
 			close(stop) // Something went wrong during safe prime generation, abort
+			verifHook("cons.stop.closed", ints)
 			return nil, nil, err
 
 		}
